@@ -11,6 +11,7 @@ Oracle    : per-iteration invariants evaluated from before/after snapshots
 from .. import configs, runcheck
 from ..core import Outcome
 
+USES_KNOWN_CASES = True
 LEVEL = "exploration"
 RULE = (
     "Real NestedSampler runs through FlowSampler; configurations drawn by a "
@@ -76,6 +77,7 @@ def strategy(ctx):
 def run(ctx):
     n = 32 if ctx.quick else 400
     cases = configs.collect(strategy(ctx), ctx.seed, n)
+    cases += runcheck.known_cases("C01")
     return runcheck.execute_cases(ctx, "c01", cases, make_history, judge)
 
 
